@@ -50,11 +50,18 @@ def _specs(tier: str):
                                     E(A(a, 0, 'succeeded', True), c)])],
              1, 1),
             ('chain2-x2', [('P1', shapes['chain2'])], 1, 2),
+            ('xtrig', [('P1', shapes['chain2'])], 1, 1),
         ]
     out = []
     for name, secs, fcp, budget in rows:
         sp = spec_from(secs, 1, fcp, name=name)
         sp['budget'] = budget
+        if name == 'xtrig':
+            # b also waits for an xtrigger (not part of the graph term)
+            sp['graph'] = {'P1': 'a => b\n@x => b'}
+            sp['xtriggers'] = {'x': 'echo(succeed=True)'}
+            sp['xtrig_tasks'] = {'b': ['x']}
+            sp['only_parts'] = ['1/b:pre']
         out.append(sp)
     return out
 
@@ -118,6 +125,11 @@ def alphabet(spec, tier):
             pres.append([_pre(foreign)])
             if own:
                 pres.append([_pre(own[0]), _pre(foreign)])
+        for lab in spec.get('xtrig_tasks', {}).get(t, ()):
+            pres += [[f'xtrigger/{lab}'], ['xtrigger/all'],
+                     ['xtrigger/nosuch']]
+            if own:
+                pres.append([_pre(own[0]), f'xtrigger/{lab}'])
         for pr in pres:
             out.append((f'{tid}:pre', 'set',
                         {**base, 'outputs': None, 'prerequisites': pr}))
@@ -134,6 +146,8 @@ def catalogue(tier: str):
             if part not in parts:
                 parts.append(part)
         for part in parts:
+            if sp.get('only_parts') and part not in sp['only_parts']:
+                continue
             s = dict(sp)
             s['base'] = sp['name']
             s['part'] = part
@@ -169,7 +183,7 @@ def run(ctx: Ctx) -> Result:
     COUNTS.collect(ctx.scratch)
     st = explore_all(
         ctx, [make_factory(s, ctx.tier) for s in specs],
-        max_states=ctx.pick(4000, 40000), max_seconds=ctx.pick(110, 1500))
+        max_states=ctx.pick(4000, 40000), max_seconds=ctx.pick(300, 2400))
     counts = COUNTS.collect(ctx.scratch)
     return result_from(
         ctx, st, prop='C29',
